@@ -5,6 +5,8 @@ import NodisVerif.Proofs.C09Writers3
 import NodisVerif.Proofs.C09IncrExec
 import NodisVerif.Proofs.GateInv
 import NodisVerif.Proofs.GeoReads
+import NodisVerif.Proofs.C11Pass
+import NodisVerif.Proofs.C11Examples
 /-
   C09 — WATCH is sound optimistic locking: a changed watched key always aborts EXEC.
 
@@ -846,6 +848,21 @@ theorem geo_reads_never_write (name : String) (args : List Bytes) (b : Body) (hn
     (b st now ch).store.signalled = [] ∧ (b st now ch).store.feed = st.feed ∧
     ∀ k, NodisVerif.Proofs.C09Writers.unchanged (Store.getMeta st k) (Store.getMeta (b st now ch).store k) :=
   readOnly_effect (geoReads_readOnly name args b hn h) st now ch h0
+
+/-- PARTIAL (SAVE is not in `table4Safe`): on a store that satisfies C11's store invariant, SAVE - the closure is
+    `Store.flush` - changes no key's logical content (`Spec.Persist.lookup`: value and deadline of every name, now and
+    at every later time), so there is nothing it would have to signal.  What is missing for `SignalsChanges` proper:
+    that predicate quantifies over ALL Pebble stores (no invariant), and its `unchanged` is about the index record
+    (identity, liveness bit), which `flush` rewrites from the copy it read at the start of the pass -/
+theorem save_keeps_logical_partial (st : MState) (t now : Int) (ch : Choice)
+    (h : NodisVerif.Proofs.C11.StoreInvX st none t) (ht : t ≤ now) (b : Body) (hb : Handler4.save = .exec b) :
+    ∀ t', now ≤ t' → ∀ k, NodisVerif.Spec.Persist.lookup (b st now ch).store t' k = NodisVerif.Spec.Persist.lookup st t' k := by
+  cases hb
+  exact (NodisVerif.Proofs.C11.flush_spec h ht).1.look
+
+/-- hypotheses satisfiable (the empty Pebble store; C11 shows the invariant is kept by every command) -/
+example : NodisVerif.Proofs.C11.StoreInvX (NodisVerif.Spec.Persist.empty true) none 0 ∧ ∃ b, Handler4.save = .exec b :=
+  ⟨NodisVerif.Proofs.C11.empty_inv true 0, _, rfl⟩
 
 /-- hypotheses satisfiable: GEOPOS on a store holding a geo key -/
 example : ∃ b, Handler4.table4 "GEOPOS" [[103], [109]] = some (.exec b) := ⟨_, rfl⟩
